@@ -21,14 +21,28 @@
 (* successor's lazy search would be at relative position 65536, so it is   *)
 (* inside the failing set of every threshold that has one.                 *)
 (***************************************************************************)
-EXTENDS Integers, TLC, Json
+EXTENDS Integers
 
-CONSTANTS Thresh, Delta, MaxPos, Lens, Emit
+CONSTANTS
+  \* @type: Int;
+  Thresh,
+  \* @type: Int;
+  Delta,
+  \* @type: Int;
+  MaxPos,
+  \* @type: Set(Int);
+  Lens
 
 Start == -8
 U16Max == 65535
 
-VARIABLES pos, shift, phase
+VARIABLES
+  \* @type: Int;
+  pos,
+  \* @type: Int;
+  shift,
+  \* @type: Str;
+  phase
 vars == <<pos, shift, phase>>
 
 Init == pos = 0 /\ shift = Start /\ phase = "search"
@@ -55,8 +69,11 @@ NoOverflow ==
 \* Delta) is further back than the largest distance the chain walk accepts
 WindowKept == Thresh - Delta > 32768
 
-\* starts of a maximal token after which the lazy search / the plain search of the following
-\* position sits exactly at relative position 65536, before the k-th reshift of the pinned tree
-Critical == {p \in 1..MaxPos : \E off \in {0, 1}, k \in 0..3 : p + 258 + off - (Start + k * 32256) = 65536}
-Replay == (Emit /\ pos = 0 /\ phase = "search") => PrintT(<<"REPLAY", ToJson([critical |-> Critical])>>)
+\* ---- unbounded complement (Apalache): an inductive invariant over all positions and all
+\* token lengths 1..258.  IndInit /\ Next => IndInv'  and  IndInv => NoOverflow.
+IndInv == /\ phase \in {"search", "enter"}
+          /\ Rel(pos) >= 8 /\ Rel(pos) <= Thresh - 1 + 258
+IndInit == pos \in Int /\ shift \in Int /\ phase \in {"search", "enter"} /\ pos >= 0 /\ IndInv
+ConstInit == Thresh = 65032 /\ Delta = 32256 /\ MaxPos = 2000000000 /\ Lens = 1..258
+ConstInitLate == Thresh = 65278 /\ Delta = 32256 /\ MaxPos = 2000000000 /\ Lens = 1..258
 =============================================================================
